@@ -171,8 +171,38 @@ def r6_prepare_target(c, facts):
             c.bad(R, 'prepare_rename:target-accessors:%s' % ','.join(sorted(want - got)), 'prepare_rename no longer selects its range through %s: the offered range is not the text rename replaces for that kind of parent' % sorted(want - got), **inst)
 
 
+def r7_no_reject(c, facts, rule='C18.R7'):
+    """an Err returned by a handler is propagated by the dispatcher with `?` and ends the server process: handlers answer
+    `None` / empty for what they cannot do and fail only when the workspace cannot read a file"""
+    R = c.rule(rule, 'HANDLER-NO-REJECT: no error value is constructed in the request handlers (a rejected request would stop the server)')
+    n = 0
+    made = []
+    for fn in sorted(facts.fns.values(), key=lambda f: f.qname):
+        if not fn.mir or not fn.qname.startswith('oal_client::lsp::handlers::'):
+            continue
+        n += 1
+        for b, t in fn.calls():
+            cal = callee_of(t)
+            d = cal['def'] if cal else ''
+            if 'anyhow' in d and any(x in d for x in ('::msg', 'format_err', 'Error::new', '::construct', 'anyhow::anyhow')):
+                made.append((fn.qname, P.strip(d).split('::')[-1], t.get('ln')))
+        for b, blk in fn.blocks():
+            for s in blk['stmts']:
+                if s['s'] == 'assign' and s['place']['l'] == 0 and not s['place']['proj'] and s['rv']['r'] == 'aggr' and s['rv'].get('variant') == 'Err':
+                    made.append((fn.qname, 'Err(..)', s.get('ln')))
+    c.floor(R, 'handler functions scanned', n, 8)
+    if made:
+        c.bad(R, 'handler-constructs-error:%s' % ','.join(sorted({q.split('::')[-1] for q, _, _ in made})), 'a request handler constructs an error (%s): the dispatcher propagates it and oal-lsp exits on that request' % sorted(set(made)))
+    else:
+        c.ok(R, {'handlers': 'errors only propagate from Workspace::read_file', 'functions': n})
+
+
 def run(c, facts):
     import c17
+    c.run(lambda c: r7_no_reject(c, facts))
+    R8 = c.rule('C18.R8', 'BINDING-SOUND: rename follows the resolver\'s binding relation, which is lexical: binders live exactly as long as their construct (shared with C08.R1/R2)')
+    c.shared(R8, c08.r1_innermost, 'C08.R1', facts)
+    c.shared(R8, c08.r2_pairing, 'C08.R2', facts)
     c.run(r6_prepare_target, facts)
     c.run(r4_qualifier_local, facts)
     c.run(lambda c: c08.r5_binder_kind(c, facts, rule='C18.R1', crates=('oal_client',)))
